@@ -47,7 +47,10 @@ def strategy_impl(draw, tier):
     sizes = {gen.dim_name(n, data_pos[n]): gen.pos_len(by_name[n]["n"], data_pos[n]) for n in padded + carried}
     sizes.update({e[0]: e[1] for e in extra})
     order = draw(gen.permutations_of(dims))
-    values = draw(gen.data_values([sizes[d] for d in order]))
+    # padding copies values: missing-data markers and infinities are data like any other ("with all data values")
+    special = draw(st.integers(0, 3)) == 0
+    values = draw(gen.data_values([sizes[d] for d in order], elements=st.one_of(gen.nice, st.sampled_from([float("nan"), float("inf"), float("-inf")]))
+                                  if special else None))
     return {
         "axes": axes,
         "grid": draw(gen.grid_settings(names, exotic=True)),
@@ -227,6 +230,8 @@ def check(case, ctx):
         classes.append("asymmetric")
     if any(max(w) >= gen.pos_len(by_name[n]["n"], case["data_pos"][n]) for n, w in case["widths"].items()):
         classes.append("width>=len")
+    if not np.isfinite(np.asarray(case["values"], dtype=np.float64)).all():
+        classes.append("nan-or-inf-data")
     return {"nontrivial": bool(some_width and (differ or partial)), "classes": classes}
 
 
@@ -236,7 +241,7 @@ def compare(got, dims, exp, comparable, what):
     gv = by_name_values(got, dims)
     if gv.shape != exp.shape:
         raise Violation(f"{what}: shape differs (widths not as requested)", got=list(gv.shape), expected=list(exp.shape))
-    bad = (gv != exp) & comparable
+    bad = (gv != exp) & ~(np.isnan(gv) & np.isnan(exp)) & comparable
     if bad.any():
         i = tuple(int(x) for x in np.argwhere(bad)[0])
         raise Violation(f"{what}: values differ", index=list(i), got=float(gv[i]), expected=float(exp[i]), n_bad=int(bad.sum()))
